@@ -23,6 +23,8 @@ evaluated on the real code):
     model's sequential dialogue AND with the small-step system run under a random scheduler; protocols for the three
     send-first helpers as well.  A hang watchdog turns a deadlock into a failing input.
 
+  * a non-alarming SOURCE-TRANSLATION TIE of ServiceStub.__init__ / __resolve_request_kwargs (source_tie_stage below): recorded only.
+
 Every observation is compared with the model's prediction inside Coq (correspondence) and with
 the property (oracle).  Runtime that the model cannot exhibit (HTTP/2 framing, grpclib deadline
 arithmetic and cancellation, asyncio scheduling) is exercised by the real calls only.
@@ -73,6 +75,107 @@ RULE = ("services: 1..5 methods, all four cardinalities (one full-matrix service
         "before/after yields, un-overridden methods, 64 None/set kwargs combinations x 4 cardinalities + 260 combinations with "
         "set-but-falsy values (timeout=0, metadata={} / []); non-trivial = a call that carries at least one non-empty message or a non-OK status "
         "or a non-None kwarg; distinct = distinct (service shape, method, request bytes, script, kwargs)")
+
+# --------------------------------------------------------------------------------------------------------------------
+# Source-translation tie (second, tighter tie for the kwargs clause; NON-ALARMING on its own).
+#   harness/gen_c11_src.py (an extension of harness/gen_c16_src.py) translates the CURRENT source text of ServiceStub.__init__ /
+#   ServiceStub.__resolve_request_kwargs into coq/gen/C11Src.v; Proofs/C11Src.v proves the translation equal to the hand-written
+#   model (resolve1 / resolve_kwargs) and restates C11_kwargs / C11_kwargs_falsy_is_set / C11_kwargs_passed over it;
+#   Properties/C11Src.v states it.  These files are NOT among the targets of the main build: a behaviour-preserving rewrite
+#   of the Python functions may make the translator reject or the proof scripts fail while C11 still holds.  So this stage
+#   only RECORDS whether the tie held (evidence: input_distribution "source_tie:*", coverage.source_translation_tie, an
+#   assumptions line, the theorems + Print Assumptions verdicts when it held) and NEVER calls ctx.fail: when it does not
+#   hold, the sampled correspondence (64 None / set combinations + set-but-falsy values) and the oracles below decide, as before.
+# --------------------------------------------------------------------------------------------------------------------
+SRC_TIE_PARTS = [
+    ("kwargs", "C11Src.v", "ServiceStub.__init__ (what it stores) and ServiceStub.__resolve_request_kwargs"),
+]
+
+
+class _AuditSink:
+    """lib.audit stores its result in `.proof` of whatever it is given; keeps the main ctx.proof untouched"""
+    proof = None
+
+
+def source_tie_stage(ctx):
+    import re
+
+    report = {"translator": None, "parts": {}}
+    ctx.cov["source_translation_tie"] = report
+    lines = []
+    gen = os.path.join(lib.VERIF, "harness", "gen_c11_src.py")
+    try:
+        # (a) the translator's verdict on the current source (dry run: writes nothing; setup.sh below regenerates gen/C11Src.v
+        #     under the build lock)
+        rc, out = lib.run([lib.PY, gen, "--dry-run"], timeout=300, cwd=lib.VERIF)
+        # the translator's own regression snippets (constructs outside the subset must be rejected, `is None` and truthiness
+        # must be rendered differently): a translator that fails them is not trusted to tie anything
+        src, sout = lib.run([lib.PY, gen, "--selftest"], timeout=300, cwd=lib.VERIF)
+        sl = [l for l in sout.strip().splitlines() if "WARNING conda" not in l]
+        report["translator_selftest"] = sl[-1][:200] if sl else "no output"
+        ctx.count("source_tie:translator_selftest_ok", 1 if src == 0 else 0)
+        # informational: what keeps the async functions outside the subset (never decides anything)
+        try:
+            _, vout = lib.run([lib.PY, gen, "--survey"], timeout=300, cwd=lib.VERIF)
+            for l in vout.splitlines():
+                if l.startswith("C11SRC-SURVEY: "):
+                    report["not_translated_async_functions"] = {k: sorted(v) for k, v in json.loads(l[len("C11SRC-SURVEY: "):]).items()}
+        except Exception as e:  # noqa
+            report["not_translated_async_functions"] = "survey failed: " + repr(e)[:200]
+        verdicts = {}
+        for l in ([] if src != 0 else out.splitlines()):
+            m = re.match(r"C11SRC-TRANSLATION-(OK|REJECTED): (\w+)(?:: (.*))?$", l)
+            if m:
+                verdicts[m.group(2)] = (m.group(1) == "OK", m.group(3) or "")
+        report["translator"] = {k: {"accepted": ok, "message": why or "accepted"} for k, (ok, why) in verdicts.items()}
+        for key, prop_file, what in SRC_TIE_PARTS:
+            part = {"what": what, "held": False, "reason": None, "theorems": []}
+            report["parts"][key] = part
+            ok, why = verdicts.get(key, (False, "translator self-test failed" if src != 0 else "no verdict from the translator: " + out.strip()[-300:]))
+            ctx.count(f"source_tie:{key}_translated", 1 if ok else 0)
+            if not ok:
+                part["reason"] = "translator rejected the current source (construct outside its subset): " + why
+            else:
+                brc, bout = lib.run([os.path.join(lib.VERIF, "setup.sh"), "Properties/" + prop_file + "o"], timeout=1500, cwd=lib.VERIF)
+                if brc != 0:
+                    err = re.findall(r'File "[^"]*", line \d+[^\n]*\n(?:[^\n]*\n){0,6}', bout)
+                    part["reason"] = ("gen/C11Src.v or the proofs do not compile against the current source (the proof scripts are tied to "
+                                      "the shape of the code): " + (err[0] if err else bout[-600:]).strip()[:900])
+                else:
+                    sink = _AuditSink()
+                    pr = lib.audit(sink, prop_file)
+                    part["theorems"] = pr["theorems"]
+                    if pr["problems"] or pr["discharged"] != pr["obligations"] or not pr["obligations"]:
+                        part["reason"] = "audit of Properties/%s: %s" % (prop_file, "; ".join(pr["problems"])[:600] or "no theorem")
+                    else:
+                        part["held"] = True
+                        part["print_assumptions"] = "all %d theorems closed under the global context" % pr["obligations"]
+                        # the audit of the main file must have succeeded for the merged counts to mean anything
+                        if ctx.proof and not ctx.proof.get("problems") and ctx.build_ok:
+                            ctx.proof["obligations"] += pr["obligations"]
+                            ctx.proof["discharged"] += pr["discharged"]
+                            ctx.proof["theorems"] = list(ctx.proof["theorems"]) + pr["theorems"]
+                            ctx.proof["verdicts"] = list(ctx.proof["verdicts"]) + pr["verdicts"]
+            ctx.count(f"source_tie:{key}_held", 1 if part["held"] else 0)
+            lines.append(f"{key} ({what}): " + ("HELD, %d theorems of Properties/%s closed" % (len(part["theorems"]), prop_file) if part["held"]
+                                                 else "DID NOT HOLD on this tree - " + str(part["reason"])[:400]))
+    except Exception as e:  # noqa  - this stage must never decide the check
+        report["stage_error"] = repr(e)[:500]
+        lines.append("stage could not complete: " + repr(e)[:300])
+        for key, _, _ in SRC_TIE_PARTS:
+            if key not in report["parts"] or not report["parts"][key].get("held"):
+                ctx.dist.setdefault(f"source_tie:{key}_held", 0)
+    held_all = all(report["parts"].get(k, {}).get("held") for k, _, _ in SRC_TIE_PARTS)
+    ctx.src_tie_line = ("source-translation tie (harness/gen_c11_src.py -> coq/gen/C11Src.v, proved equal to the model in Properties/C11Src.v; "
+                        "objects are opaque values of any type, bool() on them any function; the async call helpers, _send_messages and "
+                        "ServiceBase._call_rpc_handler_server_stream are NOT translated - that the helpers pass **__resolve_request_kwargs(...) "
+                        "to channel.request stays with the sampled correspondence): "
+                        + "; ".join(lines)
+                        + (". Where it did not hold the check FELL BACK to the sampled correspondence and the oracles (no verdict is drawn "
+                           "from a failed translation or a failed equality proof)." if not held_all else ""))
+    ctx.notes.append(ctx.src_tie_line)
+    return report
+
 
 # ids of the kwarg objects in the model
 KW_IDS = {"timeout": (11, 12), "deadline": (21, 22), "metadata": (31, 32)}
@@ -1260,6 +1363,54 @@ for kind in ("list", "gen", "agen"):
                      input={"protos": protos, "request_source": kind, "messages": 12, "bytes_each": 1 << 20})
 
 
+def reserved_names_stage(ctx):
+    """RPCs whose Python name is an instance attribute of ServiceStub (channel / timeout / deadline / metadata): __init__ stores the
+    attribute on the instance, which shadows the generated method (known finding C11-K3, found by the source translation of
+    ServiceStub.__init__: C11Src_shadowed_method_model_witness). The generators keep away from these names (RESERVED_PY); this stage
+    is the witness, with a control method next to them."""
+    root = f"c11res{os.getpid()}"
+    protos = {"res/res.proto": 'syntax = "proto3";\npackage res;\nmessage Req { int32 a = 1; }\nmessage Resp { int32 n = 1; }\n'
+                               'service Knobs {\n  rpc Timeout (Req) returns (Resp);\n  rpc Deadline (Req) returns (Resp);\n'
+                               '  rpc Metadata (Req) returns (Resp);\n  rpc Channel (Req) returns (Resp);\n  rpc Plain (Req) returns (Resp);\n}\n'}
+    rc, out, _ = pu.generate(ctx.work, protos, root)
+    if rc != 0:
+        ctx.fail("oracle", "the plugin fails on a service whose RPCs are called Timeout / Deadline / Metadata / Channel", cls=None,
+                 input={"protos": protos}, observed=out[-500:])
+        return
+    code = f"""
+import asyncio
+from grpclib.testing import ChannelFor
+import {root}.res as r
+class Impl(r.KnobsBase):
+    async def timeout(self, q): return r.Resp(n=q.a + 1)
+    async def deadline(self, q): return r.Resp(n=q.a + 2)
+    async def metadata(self, q): return r.Resp(n=q.a + 3)
+    async def channel(self, q): return r.Resp(n=q.a + 4)
+    async def plain(self, q): return r.Resp(n=q.a + 5)
+async def main():
+    async with ChannelFor([Impl()]) as ch:
+        stub = r.KnobsStub(ch)
+        for k, (name, add) in enumerate((("timeout", 1), ("deadline", 2), ("metadata", 3), ("channel", 4), ("plain", 5))):
+            try:
+                got = await asyncio.wait_for(getattr(stub, name)(r.Req(a=10 * k)), 20)
+                print("RES", name, "OK" if got == r.Resp(n=10 * k + add) else "WRONG " + repr(got))
+            except BaseException as e:
+                print("RES", name, "EXC", type(e).__name__, str(e)[:120])
+asyncio.run(main())
+"""
+    rc, out = pu.run_in_subprocess(ctx.work, code, timeout=200)
+    lines = [l.split(" ", 2) for l in out.splitlines() if l.startswith("RES ")]
+    if rc != 0 or len(lines) != 5:
+        ctx.fail("oracle", "the reserved-name service could not be run", cls=None, input={"protos": protos}, observed=out[-800:])
+        return
+    for _, name, verdict in lines:
+        ctx.count("reserved_name_calls")
+        if verdict != "OK":
+            shadow = name in pg.RESERVED_PY and verdict.startswith("EXC TypeError") and "not callable" in verdict
+            ctx.fail("oracle", f"service Knobs, rpc {name.capitalize()}: the call through the generated stub gives `{verdict}` instead of the handler's response",
+                     cls="stub-attribute-shadows-method" if shadow else None, input={"protos": protos, "method": name, "observed": verdict})
+
+
 def conv_stage(ctx, rts):
     """returns nothing; records failures in ctx"""
     rng = ctx.rng
@@ -1448,6 +1599,7 @@ def replay_input(rt, case, obs=None):
 
 def run(ctx):
     logging.disable(logging.CRITICAL)
+    source_tie_stage(ctx)
     t0 = time.time()
     rts = build_bundles(ctx)
     ctx.count("services", len(rts))
@@ -1617,6 +1769,7 @@ def run(ctx):
     # ------------------------------------------------------------------ a bidirectional echo larger than the HTTP/2 windows
     try:
         large_echo_stage(ctx)
+        reserved_names_stage(ctx)
     except Exception as e:  # noqa
         ctx.fail("crash", f"the large-echo stage raised {type(e).__name__}: {e}", no_input=True,
                  theorem_or_correspondence="C11 oracle (large bidirectional echo)", traceback=traceback.format_exc()[-1500:])
@@ -1655,6 +1808,17 @@ def run(ctx):
 
 
 def finish(ctx):
+    tie = ctx.cov.get("source_translation_tie") or {}
+    held = [k for k, p in (tie.get("parts") or {}).items() if p.get("held")]
+    assumptions = list(ASSUMPTIONS) + [getattr(ctx, "src_tie_line", "source-translation tie: stage not run")]
+    trusted = list(TRUSTED)
+    if held:
+        trusted.append("source-translation tie (held for: " + ", ".join(held) + "): the translator harness/gen_c11_src.py on top of harness/gen_c16_src.py "
+                       "(Python `ast`, fail-closed, accepted subsets documented in their headers) and the semantics of the Python operations it targets, "
+                       "coq/Model/C16SrcLib.v + coq/Model/C11SrcLib.v (an opaque object is a value of an arbitrary type, bool() on it an arbitrary function, "
+                       "Optional = option, `is None` = a test of the constructor, a dict literal = its items in source order with last-binding lookup), "
+                       "and coq/Model/C11SrcGlue.v (what **dict binds to the keyword-only arguments of grpclib's Channel.request); for ServiceStub.__init__ / "
+                       "__resolve_request_kwargs the hand-written resolve1 / resolve_kwargs are no longer trusted beyond that: they are PROVED equal to the translation")
     return lib.finish(
         ctx, "proof",
         "Coq theorems (all services, all stream lengths, all 64 kwargs combinations) over a Gallina mirror of the generated stub / "
@@ -1662,8 +1826,9 @@ def finish(ctx):
         "the real plugin and called over grpclib.testing.ChannelFor; small-step model of one call (sender task / caller loop / handler, "
         "any schedule) with confluence and completeness theorems for conversational request streams, tied by conversational protocols run "
         "over the real stub + Base; PARTIAL: HTTP/2 framing and flow control, grpclib deadlines, cancellation / stream resets are exercised "
-        "by the real calls but not modelled",
-        ASSUMPTIONS, TRUSTED, RULE,
+        "by the real calls but not modelled"
+        + ("; the kwargs resolver and the stub constructor additionally tied by mechanical source translation proved equal to the model" if held else ""),
+        assumptions, trusted, RULE,
         extra_cov={"exhaustive": False,
                    "explanation": "theorems are unbounded over services / streams / kwargs; the correspondence samples generated services "
                                   "and is exhaustive only over the 64 None/set kwargs combinations and stream lengths 0..3 x 0..3"})
